@@ -267,9 +267,13 @@ let () =
                          let b = Buffer.create 256 in
                          let first = ref true in
                          let add x = (if not !first then Buffer.add_char b ','); first := false; Buffer.add_string b x in
+                         let flags = ref (render_sym_aligned sd) in
                          List.iter (fun e ->
                              match e with
-                             | SENewline (a, c) -> add (Printf.sprintf "L:%d:%d" (int_of_n a) (int_of_n c))
+                             | SENewline (a, c) ->
+                                 (* A: the indentation was set by an `align` (column of the text), L: by nests alone *)
+                                 let al = (match !flags with f :: r -> flags := r; f | [] -> false) in
+                                 add (Printf.sprintf "%s:%d:%d" (if al then "A" else "L") (int_of_n a) (int_of_n c))
                              | SEText s -> List.iter (fun ch -> if int_of_n ch = 10 then add "X") s) es;
                          Buffer.contents b in
                    Printf.sprintf "sym=1 align=%d inst=%s wide=%s lines=%s" (if ok then 1 else 0) instb wideb lines)
